@@ -28,6 +28,8 @@ func checkC06(c *Check, a *Anchors) {
 	c09MapRanges(c, a) // the when_changed key covers the compiled commands: an unordered loop in the compiler makes identical calls hash differently
 	compiledFromDefinition(c, a, "compiled-from-definition")
 	c06KeyFromFullCompile(c, a)
+	c06ExecutionTableOnlyGrows(c, a)
+	atomicSection(c, a.HandleDynamicVar, PkgTask, "Compiler", "dynamicCache", "muDynamicCache", "memo-atomic", "lookup and store of the dynamic-variable memo are one critical section: two parallel callers of a when_changed task that both miss the memo evaluate a non-idempotent sh: variable twice, get two values and therefore two execution keys")
 	c06FileDefaultsNotImported(c, a, "file-defaults-not-imported")
 }
 
@@ -590,4 +592,41 @@ func c06FileDefaultsNotImported(c *Check, a *Anchors, rule string) {
 		})
 	}
 	c.Floor(rule, n, 3)
+}
+
+// c06ExecutionTableOnlyGrows: within an invocation the record of executions is never emptied.
+func c06ExecutionTableOnlyGrows(c *Check, a *Anchors) {
+	c.Rule("execution-table-only-grows", "no function reachable from Run or RunTask replaces, clears or deletes from Executor.executionHashes (it is created during setup and then only gains entries in the dedup function): a table that is reset on the way — per command-line target, per direct call — lets a run: once task that several targets share execute once per target")
+	runPhase := c.P.ReachableFrom([]*FuncBody{a.Run, a.RunTask}, nil)
+	n := 0
+	ord := map[string]int{}
+	for _, fb := range c.P.BodiesIn(PkgTask) {
+		info := fb.Info()
+		inspectBody(fb.Body, func(nd ast.Node) bool {
+			what := ""
+			var pos token.Pos
+			switch x := nd.(type) {
+			case *ast.AssignStmt:
+				for _, l := range x.Lhs {
+					if fieldSel(info, l, PkgTask, "Executor", "executionHashes") {
+						what, pos = "replaces the table", x.Pos()
+					}
+				}
+			case *ast.CallExpr:
+				if (isBuiltin(info, x, "delete") || isBuiltin(info, x, "clear")) && len(x.Args) > 0 && fieldSel(info, x.Args[0], PkgTask, "Executor", "executionHashes") {
+					what, pos = "removes entries from the table", x.Pos()
+				}
+			}
+			if what == "" {
+				return true
+			}
+			n++
+			c.Fn(fb.Root())
+			inRun := runPhase[fb.Root()]
+			c.Decide(!inRun, "execution-table-only-grows", ordinal(ord, "table-reset@"+fnDisplay(fb.Root())), pos, "only during setup",
+				fnDisplay(fb.Root())+" "+what+" of recorded executions and is reachable from Run / RunTask: executions recorded earlier in the same invocation are forgotten, so a run: once task referenced again (by the next command-line target, by a later direct call) runs again")
+			return true
+		})
+	}
+	c.Floor("execution-table-only-grows", n, 1)
 }
